@@ -1,5 +1,6 @@
 """C13 - profile text is data: names and messages reach the report intact."""
 import json
+import os
 import time
 
 import vlib
@@ -77,8 +78,17 @@ def run(tier):
             rid = "kw-%s/%s" % (w, k)
             rows.append({"id": rid, "kind": k, "text": w, "present": {}})
             meta[rid] = ({"kind": "verbatim", "s": ["q"], "present": [], "expect": ["q"]}, w, w)
+    # the report the command line tool prints is a report too: a sample of the rows (every row with a percent sign first)
+    acv = vlib.build_cli()
+    scratch = os.path.join(vlib.BUILD, "c13cli")
+    os.makedirs(scratch, exist_ok=True)
+    pick = [r for r in rows if r["kind"] in ("message", "profileName", "validationName")]
+    pick.sort(key=lambda r: (0 if "%" in r["text"] else 1, vlib.sha(r["id"] + str(vlib.seed()))))
+    for r in pick[: (60 if quick else 600)]:
+        r["cli"], r["scratch"] = acv, scratch
     obs = vlib.run_harness("text", rows, "c13", timeout=3000)
     nontriv = 0
+    ncli = 0
     skipped = 0
     for o in obs:
         c, text, want = meta[o["id"]]
@@ -105,6 +115,14 @@ def run(tier):
         else:
             if o["reported"] != ["n2"]:
                 V.disagree("%s value with [%s] changes the verdict" % (kind, klass(c["s"])), detail)
+        if o.get("cliRan"):
+            ncli += 1
+            detail["cli"] = {k: o.get(k) for k in ("cliErr", "cliProfileName", "cliNames", "cliMessages")}
+            if o.get("cliErr"):
+                V.disagree("acv validate fails or prints no report for a %s with [%s]" % (kind, klass(c["s"])), detail)
+            elif (kind == "message" and o.get("cliMessages") != [want]) or (kind == "profileName" and o.get("cliProfileName") != want) \
+                    or (kind == "validationName" and sorted(set(o.get("cliNames") or [])) != [want]):
+                V.disagree("%s with [%s] is altered in the report printed by acv validate" % (kind, klass(c["s"])), detail)
     if skipped > len(obs) // 20:
         raise vlib.Infra("%d of %d cases could not be written as YAML by the harness" % (skipped, len(obs)))
     rc = V.finish()
@@ -119,7 +137,7 @@ def run(tier):
                 "in, containsAll, containsSome (YAML-encoded by yaml.v3); profileName, sourceShapeName, resultMessage and the "
                 "verdict compared; non-trivial = text containing a character special to Rego/sprintf/JSON"
                 % (maxlen, total, "" if quick else "; 1:3 replayed"),
-        "exhaustive": quick, "skipped_not_writable_as_yaml": skipped,
+        "exhaustive": quick, "skipped_not_writable_as_yaml": skipped, "also_through_acv_validate": ncli,
         "samples": [{"position": r["kind"], "text": r["text"], "expected": meta[r["id"]][2]} for r in rows[:: max(1, len(rows) // 8)]][:8],
         "checker_cmd": rs[0].cmd, "negative_control": "Shipped chain -> Correct violated (e.g. a lone backslash)",
         "known_findings_hit": sorted(V.known_hits),
